@@ -11,6 +11,7 @@ RULE = ('random PDAs (1-3 states, input {a,b}, stack symbols from {x,y,$,@}) wit
         'the fresh state names and the fresh marker chosen by the implementation are recorded (fresh_state / fresh_symbol wrapped in the worker) and replayed in the model. '
         'Relation: valid PDA, shape clause (single accepting state / only push or pop moves / accepting configurations have an empty stack), language equal to the original on all words <= n (n = 3; exact enumeration on both sides, '
         'closures untruncated), argument unchanged; grammar: valid and bounded language equal to that of the PDA. Non-trivial = the PDA accepts at least one non-empty word and has >= 2 transitions; distinct by PDA text.')
+RULE += ' Added after the seeded rounds: the naming policy of fresh_state compared with Model/FreshName.v (informational).'
 CODES = {9: 'generated PDA invalid (harness)', 1: 'structure differs from the model (or a closure was truncated), property-level relation holds where decidable',
          40: 'pda_to_cfg raised / timed out', 41: 'pda_to_cfg modified its argument', 42: 'pda_to_cfg returned an invalid grammar', 44: 'the grammar does not generate the PDA language (word <= n)', 45: 'pda_to_cfg: a chosen name was not fresh'}
 for k, nme in [(10, 'pda_to_one_accepting_state_in_place'), (20, 'pda_to_push_pop'), (30, 'pda_to_accept_on_empty_stack')]:
